@@ -9,7 +9,7 @@ from props import C01
 
 ID = "C17"
 ISOLATE = True  # end-to-end solver calls: run every case in a killable child
-CASE_TIMEOUT = 60
+CASE_TIMEOUT = 240
 RULE = ("case = generated database(s) x planted sample (as in C01; optionally a second gene on another contig in the same BAM) x gap in "
         "{0, 0.1, 0.3} x max_minor_solutions 1-3 x output format; `aldy genotype --debug` is run through aldy.__main__.main, then the "
         "produced archive is genotyped with the same parameters; non-trivial = indel-defined allele planted, or > 2 copies, or >= 2 "
@@ -68,6 +68,22 @@ def run_case(case):
         if i == 0:
             first = sim
         reads = sim.sample_reads([(c, m) for c, m, _, _ in copies], rl, step, skip=() if i == 0 else ("neutral",))
+        if case.get("odd") and len(gene.regions) > 1:
+            # a few reads with a deletion and mismatches over the pseudogene (outside the RefSeq-mapped span) and the gene
+            import random as _r
+
+            rg = _r.Random(case["sim_seed"] + 31 + i)
+            for gi in range(len(gene.regions)):
+                lo_ = min(r.start for r in gene.regions[gi].values())
+                hi_ = max(r.end for r in gene.regions[gi].values())
+                for j in range(case["odd"]):
+                    a = rg.randrange(lo_ + 5, max(lo_ + 6, hi_ - 70))
+                    l1, dd, l2 = rg.randrange(15, 30), rg.randrange(1, 6), rg.randrange(15, 30)
+                    G = sim.genome
+                    sq = list(G[a:a + l1] + G[a + l1 + dd:a + l1 + dd + l2])
+                    k = rg.randrange(len(sq))
+                    sq[k] = {"A": "C", "C": "G", "G": "T", "T": "A"}[sq[k]]
+                    reads.append((f"odd{i}_{gi}_{j}", a, [(0, l1), (2, dd), (0, l2)], "".join(sq)))
         sims_reads.append((sim, reads))
         dbs.append(path)
         indel |= any(op[:3] in ("ins", "del") for _, ms, _, _ in copies for _, op in ms)
@@ -79,6 +95,11 @@ def run_case(case):
         prs.append((sim, sim.sample_reads([("1", frozenset())] * 2, rl, step, skip=() if i == 0 else ("neutral",))))
     simreads.write_multi(pbam, prs)
     cnr = first.cnr
+    if case.get("neutral_hole"):
+        # neutral window wider than the stretch that carries reads: some positions have no coverage at all
+        from aldy.common import GRange
+
+        cnr = GRange(cnr.chr, cnr.start - 300 - case["neutral_hole"], cnr.end + 300 + case["neutral_hole"])
     region = f"{cnr.chr}:{cnr.start}-{cnr.end}"
     gene_arg = ",".join(dbs)
     ext = case["out"]
@@ -87,7 +108,8 @@ def run_case(case):
     params = [f"gap={case['gap']}", f"max_minor_solutions={case['mms']}"]
     common = ["-g", gene_arg, "--genome", build, "-s", "cbc"]
     pargs = [x for p in params for x in ("--param", p)]
-    labels = [f"genes:{len(dbs)}", f"out:{ext}", f"gap:{case['gap']}", "indel" if indel else "noindel", f"copies:{ncopies}"]
+    labels = [f"genes:{len(dbs)}", f"out:{ext}", f"gap:{case['gap']}", "indel" if indel else "noindel", f"copies:{ncopies}",
+              "neutral-hole" if case.get("neutral_hole") else "neutral-full", f"odd-reads:{case.get('odd', 0)}"]
     viol = []
 
     code, recs = cli_util.run_main(["genotype", bam, "-p", pbam, "-n", region, "--debug", prefix, "-o", out1] + common + pargs)
@@ -139,9 +161,62 @@ def strategy(tier):
         "out": st.sampled_from(["aldy", "vcf", "simple"]),
         "sim_seed": st.integers(0, 10 ** 6),
         "db2": st.none() | gen_db.db_specs(small=True),
+        "odd": st.sampled_from([0, 2, 5]),
+        "neutral_hole": st.sampled_from([0, 0, 7, 60]),
     }
     return st.fixed_dictionaries(base)
 
 
 def budget(tier):
     return {"examples": 160 if tier == "quick" else 2400, "shards": 16}
+
+
+# ------------------------------------------------------------------ shipped NA10860 BAM
+def run_na10860(case):
+    from aldy.common import script_path
+    from aldy.genotype import genotype
+    from aldy.common import AldyException
+    import aldy.common
+
+    d = scratch()
+    for fn in os.listdir(d):
+        if fn.startswith("dbg") or fn.startswith("out"):
+            os.remove(os.path.join(d, fn))
+    aldy.common.json.clear()
+    bam = script_path("aldy.tests.resources/" + case["file"])
+    prefix = os.path.join(d, "dbg")
+    out1, out2 = os.path.join(d, "out1.aldy"), os.path.join(d, "out2.aldy")
+    pargs = ["--param", "minor_phase_vars=10", "--param", f"gap={case['gap']}", "--param", "max_minor_solutions=1"]
+    common = ["-g", "cyp2d6", "-s", "cbc"]
+    code, recs = cli_util.run_main(["genotype", bam, "-p", "illumina", "--debug", prefix, "-o", out1] + common + pargs)
+    arch = prefix + ".tar.gz"
+    viol = []
+    if not os.path.exists(arch):
+        return Result([V("no-archive-written", code=code, log=recs[-3:])], ["shipped-bam"], True)
+    cli_util.run_main(["genotype", arch, "-o", out2] + common + pargs)
+    t1 = open(out1).read() if os.path.exists(out1) else None
+    t2 = open(out2).read() if os.path.exists(out2) else None
+    if t1 != t2:
+        viol.append(V("output-file-differs:aldy", file=case["file"]))
+    kw = dict(solver="cbc", gap=case["gap"], max_minor_solutions=1, minor_phase_vars=10)
+    r1 = summarize(genotype("cyp2d6", bam, "illumina", output_file=None, **kw))
+    r2 = summarize(genotype("cyp2d6", arch, None, output_file=None, **kw))
+    if r1 != r2:
+        viol.append(V("api-result-differs:solutions", detail=str({"bam": r1, "archive": r2})[:1200], file=case["file"]))
+    return Result(viol, ["shipped-bam:" + case["file"], f"gap:{case['gap']}"], True)
+
+
+_gen_run_case = run_case
+
+
+def run_case(case):  # noqa
+    if case.get("kind") == "na10860":
+        return run_na10860(case)
+    return _gen_run_case(case)
+
+
+def enum_cases(tier):
+    cases = [{"kind": "na10860", "file": "NA10860.bam", "gap": 0}]
+    if tier != "quick":
+        cases += [{"kind": "na10860", "file": "NA10860_hg38.bam", "gap": 0}, {"kind": "na10860", "file": "NA10860.bam", "gap": 0.1}]
+    return cases
